@@ -162,7 +162,7 @@ def run(ctx):
         else:
             cases.append(("vcl", g.program().encode(), "gen-vcl-%d" % i, None, False, True))
     eg = parsegen.ExprGen(rng)
-    n_expr = 500000 if thorough else 15000
+    n_expr = 300000 if thorough else 15000
     maxd = 10 if thorough else 6
     depth_hist = {}
     for i in range(n_expr):
@@ -270,7 +270,7 @@ def run(ctx):
     del cases
 
     # ------------------------------------------------------------- phase B: malformed token streams
-    n_mut = 1500000 if thorough else 40000
+    n_mut = 1000000 if thorough else 40000
     poolk = sorted(pool)
     mk = {}
     b_out = {"ok": 0, "err": 0}
